@@ -12,6 +12,7 @@ import PetgraphModel.Proofs.C16W2ApMain
 import PetgraphModel.Proofs.C16W4Checks
 import PetgraphModel.Proofs.C16W4Judge
 import PetgraphModel.Proofs.C16W4Model
+import PetgraphModel.Proofs.C16W6
 /-
 C16 — dominators and articulation points match their path-based definitions.
 
@@ -39,6 +40,13 @@ Part E (wave 4): run-time checks of the hypotheses — the Boolean checks the dr
 full-correctness theorems hold for every case the driver judges (`C16_simple_fast_checked`,
 `C16_articulation_checked`), and on such a case the judge accepts the model's own answer
 (`C16_model_sf_accepted`, `C16_model_ap_accepted`).
+Part F (wave 6, the corners): the lazy iterators `DominatorsIter` / `DominatedByIter` as state machines
+(`Model/C16Iter.lean`) yield step by step exactly the collected lists of Part C, are fused, and the
+overridden `size_hint` of `DominatedByIter` brackets what is still to come; ids that are not nodes
+(beyond the bound, vacant, filtered out) have no entry and dominate nothing; dominators and cut vertices
+depend on the node set and the adjacency relation only (so the abstract graphs the harness assigns to the
+adaptors — every edge / self-loop met twice by `UndirectedAdaptor` — have the same answers); the witness of
+open finding D23 as seen by `articulation_points`.
 -/
 namespace PetgraphModel.C16T
 open PetgraphModel MGraph Oracle C16S C16O C16M C16P
@@ -592,6 +600,116 @@ theorem C16_model_ap_accepted (v : View) (h : C16.apScopeB v = true) :
   · exact (W4.sortNats_perm l).nodup_iff.mpr hn
   · exact ((W4.sortNats_perm l).mem_iff).trans (hx x)
 
+/-! ## Part F — the corners (wave 6) -/
+
+/-- **`DominatorsIter` is lazy and yields the dominator chain**: `k` calls of `next` on the iterator
+`dominators(n)` / `strict_dominators(n)` returns yield the first `k` items of the collected list of Part C
+(`Doms.chain`), for every `k` — in particular the full lists with the accessor model's own bound -/
+theorem C16_dominators_iter_steps (d : Doms) (k : Nat) (node : Option Nat) :
+    (DomIter.mk d node).take k = d.chain k node :=
+  W6.domIter_take d k node
+
+theorem C16_dominators_iter_collect (d : Doms) (n : Nat) :
+    d.dominators n = (d.dominatorsIter n).map (·.take (d.chainFuel + 1)) ∧
+    d.strictDominators n = (d.strictDominatorsIter n).map (·.take d.chainFuel) := by
+  unfold Doms.dominators Doms.strictDominators Doms.dominatorsIter Doms.strictDominatorsIter
+  constructor <;> split <;> simp [W6.domIter_take]
+
+/-- `DominatorsIter` is fused: once `next` has answered `None` the state does not change and every later
+call answers `None` -/
+theorem C16_dominators_iter_fused (it it' : DomIter) (h : it.next = (none, it')) :
+    it' = it ∧ it'.next = (none, it') :=
+  W6.domIter_fused it it' h
+
+/-- **`DominatedByIter`, one step**: a `next` that yields `x` removes exactly `x` from the front of what the
+iterator will still yield and shrinks the underlying map iterator; a `next` that yields `None` means nothing
+was left, exhausts the map iterator and is final (fused) -/
+theorem C16_dominated_by_iter_next (it it' : IdbIter) :
+    (∀ x, it.next = (some x, it') → it.toList = x :: it'.toList ∧ it'.rest.length < it.rest.length) ∧
+    (it.next = (none, it') → it.toList = [] ∧ it'.rest = [] ∧ it'.next = (none, it')) :=
+  ⟨fun x h => ⟨(W6.idbIter_next_some it it' x h).1, (W6.idbIter_next_some it it' x h).2.1⟩,
+   W6.idbIter_next_none it it'⟩
+
+/-- **`DominatedByIter` is lazy and yields `immediately_dominated_by`**: the iterator returned for `n`
+will yield exactly the collected list of Part C, and `k` calls of `next` yield its first `k` items -/
+theorem C16_dominated_by_iter_collect (d : Doms) (n k : Nat) :
+    (d.immediatelyDominatedByIter n).toList = d.immediatelyDominatedBy n ∧
+    (d.immediatelyDominatedByIter n).take k = (d.immediatelyDominatedBy n).take k := by
+  have h : (d.immediatelyDominatedByIter n).toList = d.immediatelyDominatedBy n := rfl
+  exact ⟨h, by rw [W6.idbIter_take, h]⟩
+
+/-- **the overridden `size_hint` of `DominatedByIter` is correct in every state**: lower bound 0, upper
+bound = entries of the map not yet looked at ≥ the number of items still to come -/
+theorem C16_dominated_by_iter_size_hint (it : IdbIter) :
+    it.sizeHint.1 ≤ it.toList.length ∧ ∃ u, it.sizeHint.2 = some u ∧ it.toList.length ≤ u :=
+  ⟨Nat.zero_le _, it.rest.length, rfl, W6.idbIter_toList_le it⟩
+
+/-- **ids that are not nodes** (an index beyond the bound, a vacant `StableGraph` slot, a removed
+`MatrixGraph` id, a node a filter excludes, `NodeIndex::end()`): on every case the driver judges, the
+mirrored `simple_fast` has no entry for them — `immediate_dominator`, `dominators`, `strict_dominators`
+are `None` — and they dominate nothing (`immediately_dominated_by` is empty); what the harness checks
+against the implementation as `law absent` -/
+theorem C16_absent_id_no_entry (v : View) (root : Nat) (h : C16.sfScopeB v root = true) (b : Nat)
+    (hb : b ∉ v.g.nodes) :
+    ∃ d, simpleFast v root = .ok d ∧ d.immediateDominator b = none ∧ d.dominators b = none ∧
+      d.strictDominators b = none ∧ d.immediatelyDominatedBy b = [] := by
+  obtain ⟨_, _, hroot, hwf⟩ := C16_sf_scope_check v root h
+  obtain ⟨d, hd, _, h2, _, _, h5, h6, _, h8⟩ := C16_simple_fast_checked v root h
+  have hnr : ¬ Reach v.g root b := W6.not_reach_of_not_node hwf hroot hb
+  refine ⟨d, hd, (h5 b).mpr (Or.inr hnr), (h2 b).mpr hnr, (h6 b).mpr hnr, ?_⟩
+  apply List.eq_nil_iff_forall_not_mem.mpr
+  intro m hm
+  have hi := ((h8 b).2 m).mp hm
+  exact hb (W6.dominator_mem_nodes hwf hroot hi.1 hi.2.1.2)
+
+/-- the same at the level of the specification: a node that dominates a reachable node is a node of the
+graph, and nothing outside the graph is reachable from a root inside it -/
+theorem C16_dominators_are_nodes (g : MGraph) (hwf : g.WellFormed) (r a b : Nat) (hr : r ∈ g.nodes)
+    (hb : Reach g r b) (hd : Dominates g r a b) : a ∈ g.nodes ∧ b ∈ g.nodes :=
+  ⟨W6.dominator_mem_nodes hwf hr hb hd, W2Post.reach_mem_nodes hwf hr hb⟩
+
+/-- **the answers depend on the node set and the adjacency relation only**: two multigraphs with the same
+nodes in which the same pairs are adjacent have the same reachability, the same dominators and immediate
+dominators for every root, and the same cut vertices — whatever their edge multiplicities, edge ids,
+weights or stored orientations of undirected edges -/
+theorem C16_answers_depend_on_adjacency (g g' : MGraph) (hn : g.nodes = g'.nodes)
+    (ha : ∀ a b, g.Adj a b ↔ g'.Adj a b) :
+    (∀ a b, Reach g a b ↔ Reach g' a b) ∧
+    (∀ r a b, Dominates g r a b ↔ Dominates g' r a b) ∧
+    (∀ r a b, IsIdom g r a b ↔ IsIdom g' r a b) ∧
+    (∀ x, CutVertex g x ↔ CutVertex g' x) :=
+  ⟨W6.reach_iff ha, W6.dominates_iff ha, W6.isIdom_iff ha, W6.cutVertex_iff hn ha⟩
+
+/-- consequently adding parallel copies of existing edges — `UndirectedAdaptor` meets every self-loop of a
+directed base and every edge of an undirected base twice — changes neither dominators nor cut vertices:
+the abstract graph the harness assigns to that adaptor has the answers of the underlying undirected graph -/
+theorem C16_parallel_copies_irrelevant (g : MGraph) (extra : List Edge)
+    (h : ∀ e ∈ extra, ∃ e' ∈ g.edges, e'.src = e.src ∧ e'.tgt = e.tgt) :
+    (∀ r a b, Dominates { g with edges := g.edges ++ extra } r a b ↔ Dominates g r a b) ∧
+    (∀ r a b, IsIdom { g with edges := g.edges ++ extra } r a b ↔ IsIdom g r a b) ∧
+    (∀ x, CutVertex { g with edges := g.edges ++ extra } x ↔ CutVertex g x) :=
+  let ha := W6.adj_addParallel g extra h
+  ⟨W6.dominates_iff ha, W6.isIdom_iff ha, W6.cutVertex_iff rfl ha⟩
+
+/-- the underlying undirected graph of `b → a`, `b → c` and a self-loop at `a` (ids 1 → 0, 1 → 2, 0 → 0) as
+`UndirectedAdaptor` presents it: the loop twice -/
+def exD23G : MGraph := ⟨false, [0, 1, 2], [⟨0, 1, 0, 1⟩, ⟨1, 1, 2, 1⟩, ⟨2, 0, 0, 1⟩, ⟨3, 0, 0, 1⟩]⟩
+
+/-- what `UndirectedAdaptor::edges(_).target()` enumerates for it (open finding D23): the incoming edge
+`1 → 0` is reported at `0` with target `0`, the incoming edge `1 → 2` at `2` with target `2` -/
+def exD23V : View :=
+  ⟨exD23G, 3, [(0, 0), (1, 1), (2, 2)], [(0, [(0, 2), (0, 999999), (0, 3)]), (1, [(2, 1), (0, 0)]), (2, [(2, 999999)])], derivedIn exD23G⟩
+
+/-- **witness of open finding D23 at `articulation_points`**: node 1 is the one cut vertex of the path
+`0 – 1 – 2`; the view is rejected by the driver's `viewOkB`, has exactly the D23 shape, and the mirror model
+of `articulation_points` run on it returns the empty set — what the implementation answers for
+`articulation_points(UndirectedAdaptor(&g))` -/
+theorem C16_D23_witness :
+    checkAP exD23G [1] = true ∧ checkAP exD23G [] = false ∧
+    C16.viewOkB exD23V = false ∧ C16.d23ViewB exD23V = true ∧
+    articulationPoints exD23V = .ok [] := by
+  refine ⟨by decide, by decide, by decide, by decide, by rfl⟩
+
 /-! ## the hypotheses are satisfiable: concrete non-trivial instances -/
 
 /-- the irreducible flow graph of Cooper–Harvey–Kennedy, figure 2: 5→4, 5→3, 4→1, 3→2, 1⇄2 -/
@@ -680,5 +798,24 @@ example : C16.judgeSf exG 5 5 (C16.recsOf [1, 2, 3, 4, 5] ⟨5, [(1, 5), (2, 5),
 example : (C16.judgeSf exG 5 5 ((C16.recsOf [1, 2, 3, 4, 5] ⟨5, [(1, 5), (2, 5), (3, 5), (4, 5), (5, 5)]⟩).map
     fun rc => if rc.b = 5 then { rc with strict := some [5] } else rc)).isSome = true := by decide
 example : C16.judgeAp exU [1, 2] = none := by decide
+
+-- wave 6: the lazy iterators on the Cooper–Harvey–Kennedy example (`exV`, root 5)
+example : (DomIter.mk ⟨5, [(1, 5), (2, 5), (3, 5), (4, 5), (5, 5)]⟩ (some 1)).take 4 = [1, 5] := rfl
+example : ((Doms.mk 5 [(1, 5), (2, 5), (3, 5), (4, 5), (5, 5)]).immediatelyDominatedByIter 5).take 2 = [1, 2] := rfl
+example : ((Doms.mk 5 [(1, 5), (2, 5), (3, 5), (4, 5), (5, 5)]).immediatelyDominatedByIter 5).next.2.sizeHint = (0, some 4) := rfl
+-- an id that is not a node: the hypotheses of `C16_absent_id_no_entry` are satisfiable
+example : C16.sfScopeB exV' 5 = true ∧ 7 ∉ exV'.g.nodes := by decide
+-- `C16_dominators_are_nodes` / `C16_answers_depend_on_adjacency`: well-formed graph, root a node, a reachable node; two
+-- different graphs with the same nodes and adjacency (an extra parallel copy of 5 → 4)
+example : exG.WellFormed ∧ 5 ∈ exG.nodes ∧ Reach exG 5 4 :=
+  ⟨(C16_wellformed_check exG).mp (by decide), by decide, Reach.step (Reach.refl 5) ⟨⟨0, 5, 4, 1⟩, by decide, Or.inl ⟨rfl, rfl⟩⟩⟩
+example : ({ exG with edges := exG.edges ++ [⟨9, 5, 4, 1⟩] } : MGraph).nodes = exG.nodes ∧
+    ∀ a b, ({ exG with edges := exG.edges ++ [⟨9, 5, 4, 1⟩] } : MGraph).Adj a b ↔ exG.Adj a b :=
+  ⟨rfl, W6.adj_addParallel exG [⟨9, 5, 4, 1⟩] (by decide)⟩
+-- `C16_parallel_copies_irrelevant`: a non-empty `extra`
+example : ∀ e ∈ [(⟨9, 5, 4, 1⟩ : Edge)], ∃ e' ∈ exG.edges, e'.src = e.src ∧ e'.tgt = e.tgt := by decide
+-- the D23 classifier does not accept a view that merely drops a neighbour, nor a correct view
+example : C16.d23ViewB { exD23V with out := [(0, [(0, 2), (0, 3)]), (1, [(2, 1), (0, 0)]), (2, [(1, 1)])] } = false := by decide
+example : C16.graphScopeB { exD23V with out := [(0, [(1, 0), (0, 2), (0, 3)]), (1, [(2, 1), (0, 0)]), (2, [(1, 1)])] } = true := by decide
 
 end PetgraphModel.C16T
